@@ -115,6 +115,14 @@ func cmdVerify(args []string) {
 		w.Finish(u.VC)
 		units = append(units, u)
 	}
+	for _, ip := range w.InitUnits() {
+		if *fn != "" && !strings.Contains(ip+":init", *fn) {
+			continue
+		}
+		u := w.VerifyInit(ip)
+		w.Finish(u.VC)
+		units = append(units, u)
+	}
 	for _, l := range w.Lemmas {
 		if *fn != "" && !strings.Contains("lemma "+l.Name, *fn) {
 			continue
